@@ -204,11 +204,20 @@ func (p *provider) Stop(ctx context.Context) error {
 	}
 }
 
-func (p *provider) filter(obj any) bool {
-	// should never be of a different type. ok if panics
-	rs := obj.(*v1alpha4.RuleSet) // nolint: forcetypeassert
+// toRuleSet returns the RuleSet resource carried by the given object. If the deletion of a resource has
+// been missed while the watch was interrupted, the informer does not deliver the resource itself, but
+// its last known state wrapped into a cache.DeletedFinalStateUnknown object.
+func toRuleSet(obj any) *v1alpha4.RuleSet {
+	if tombstone, ok := obj.(cache.DeletedFinalStateUnknown); ok {
+		obj = tombstone.Obj
+	}
 
-	return rs.Spec.AuthClassName == p.ac
+	// should never be of a different type. ok if panics
+	return obj.(*v1alpha4.RuleSet) // nolint: forcetypeassert
+}
+
+func (p *provider) filter(obj any) bool {
+	return toRuleSet(obj).Spec.AuthClassName == p.ac
 }
 
 func (p *provider) addRuleSet(obj any) {
@@ -297,8 +306,7 @@ func (p *provider) deleteRuleSet(obj any) {
 
 	p.l.Info().Msg("Rule set deletion received")
 
-	// should never be of a different type. ok if panics
-	rs := obj.(*v1alpha4.RuleSet) // nolint: forcetypeassert
+	rs := toRuleSet(obj)
 	conf := p.toRuleSetConfiguration(rs)
 
 	if err := p.p.OnDeleted(conf); err != nil {
